@@ -111,6 +111,8 @@ type Cmd struct {
 	InjectWhen                        string // "" = every call, otherwise strace's when= expression (e.g. "2+": all but the first)
 	// NoFile > 0 runs the process with that limit of open file descriptors (prlimit --nofile; not combined with Strace)
 	NoFile int
+	// FSize > 0 runs the process with that limit on the size of a file it writes (prlimit --fsize)
+	FSize int
 	retries                           int
 }
 
@@ -235,6 +237,8 @@ func Run(c Cmd) *Result {
 			"-e", "trace=%file,ftruncate,fchmod,fchown,fchmodat,fchownat", c.Bin}
 		args = append(args, c.Args...)
 		cmd = exec.CommandContext(ctx, "strace", args...)
+	} else if c.FSize > 0 {
+		cmd = exec.CommandContext(ctx, "prlimit", append([]string{fmt.Sprintf("--fsize=%d:%d", c.FSize, c.FSize), c.Bin}, c.Args...)...)
 	} else if c.NoFile > 0 {
 		cmd = exec.CommandContext(ctx, "prlimit", append([]string{fmt.Sprintf("--nofile=%d:%d", c.NoFile, c.NoFile), c.Bin}, c.Args...)...)
 	} else {
